@@ -29,7 +29,9 @@ Inductive pkind :=
 | KCtx
 | KScalar (ptr : bool)
 | KStruct (ptr : bool) (fields : list fspec)
-| KMap (ptr : bool).
+| KMap (ptr : bool)
+| KOpaque (ptr : bool).     (* a qualified named type that is neither a struct nor (on GET/DELETE) a scalar:
+                               outside the grammar, see wf_kind; the generator binds it as the body *)
 
 Record mspec := {
   s_verb : string;                         (* GET POST PUT PATCH DELETE *)
@@ -39,28 +41,42 @@ Record mspec := {
 }.
 
 (* ------------------------------------------------ classification of types *)
-Definition kind_base (E : env) (t : texpr) (ptr : bool) : option pkind :=
+Definition kind_base (E : env) (verb : string) (t : texpr) (ptr : bool) : option pkind :=
   match t with
   | TIdent n => if is_struct_type E n then Some (KStruct ptr (struct_fields E EmptyString n))
                 else Some (KScalar ptr)
   | TSel pkg n =>
       match assoc2 (e_sel E) pkg n with
       | Some SelCtx => if ptr then None else Some KCtx
-      | Some SelNamed => Some (KStruct ptr (struct_fields E pkg n))
+      | Some SelBasic => if get_or_delete verb then Some (KScalar ptr) else Some (KOpaque ptr)
+      | Some SelNamed =>
+          match assoc2 (e_structs E) pkg n with
+          | Some _ => Some (KStruct ptr (struct_fields E pkg n))
+          | None => Some (KOpaque ptr)
+          end
       | _ => None
       end
   | TMapT => Some (KMap ptr)
   | _ => None
   end.
-Definition kind_of (E : env) (t : texpr) : option pkind :=
+Definition kind_of (E : env) (verb : string) (t : texpr) : option pkind :=
   match t with
-  | TStar x => kind_base E x true
-  | x => kind_base E x false
+  | TStar x => kind_base E verb x true
+  | x => kind_base E verb x false
   end.
 
 (* the declared parameters with their kinds, in order *)
-Definition typed_params (E : env) (m : method_decl) : list (string * option pkind) :=
-  flat_map (fun p => map (fun n => (n, kind_of E (pd_type p))) (pd_names p)) (md_params m).
+(* consistency of the environment: a qualified named scalar is not also listed as a struct
+   (type names are unique in a package) *)
+Definition env_ok (E : env) : bool :=
+  forallb (fun x => match snd x with
+                    | SelBasic => match assoc2 (e_structs E) (fst (fst x)) (snd (fst x)) with None => true | Some _ => false end
+                    | _ => true
+                    end) (e_sel E).
+
+(* an unnamed parameter declaration appears with the empty name (and is therefore outside wf_mspec) *)
+Definition typed_params (E : env) (verb : string) (m : method_decl) : list (string * option pkind) :=
+  flat_map (fun p => map (fun n => (n, kind_of E verb (pd_type p))) (decl_names p)) (md_params m).
 
 (* ----------------------------------------------------- the required request *)
 (* "alias-resolved": the placeholder {h} stands for the parameter aliased to h, or for the
@@ -118,7 +134,7 @@ Definition field_write (fs : list (string * fval)) (f : fspec) : wr :=
 Definition param_writes (ms : mspec) (args : list (string * aval)) (pk : string * pkind) : wr :=
   let (p, k) := pk in
   match k with
-  | KCtx | KMap _ => WOk []
+  | KCtx | KMap _ | KOpaque _ => WOk []
   | KScalar ptr =>
       if mem_str p (map (resolve (s_alias ms)) (holes (s_toks ms))) then WOk []     (* travels in the path *)
       else
@@ -159,13 +175,13 @@ Definition has_query_source (ms : mspec) : bool :=
                      | KScalar _ => negb (mem_str (fst pk) (map (resolve (s_alias ms)) (holes (s_toks ms))))
                      | KStruct _ fs => match fs with [] => false | _ => true end
                      | KMap _ => true
-                     | KCtx => false
+                     | KCtx | KOpaque _ => false
                      end) (s_params ms).
 
 Definition last_of_kind (p : pkind -> bool) (ps : list (string * pkind)) : option string :=
   fold_left (fun acc pk => if p (snd pk) then Some (fst pk) else acc) ps None.
 Definition is_ctx k := match k with KCtx => true | _ => false end.
-Definition is_struct k := match k with KStruct _ _ => true | _ => false end.
+Definition is_struct k := match k with KStruct _ _ | KOpaque _ => true | _ => false end.   (* what the generator binds as the body *)
 Definition is_map k := match k with KMap _ => true | _ => false end.
 
 (* headers: the verb's defaults, overridden/extended by the interface directive, emitted in key order *)
@@ -253,7 +269,8 @@ Definition kind_of_param (ms : mspec) (p : string) : option pkind :=
 
 (* a method inside the region where the generator can satisfy the property:
    - placeholders are word-character names, literal path pieces carry no brace
-   - parameter names are distinct identifiers (no dot), alias sources and targets are distinct,
+   - parameter names are distinct identifiers (no dot; an unnamed or blank parameter is refused by the
+     generator), alias sources and targets are distinct,
      alias names are non-empty and free of dots
    - every placeholder resolves to a plain (non-pointer) scalar parameter, and a placeholder that
      is nobody's alias is not itself renamed by the alias directive
@@ -272,12 +289,13 @@ Definition wf_kind (p : string) (k : pkind) : bool :=
   match k with
   | KStruct _ fs => forallb wf_field fs && nodup_str (map fi_name fs) && nodup_str (map (fun f => expr_key (fexpr p f)) fs)
   | KMap ptr => negb ptr
+  | KOpaque _ => false
   | _ => true
   end.
 Definition wf_mspec (ms : mspec) : bool :=
   forallb wf_tok (s_toks ms)
   && nodup_str (map fst (s_params ms))
-  && forallb (fun pk => nonempty (fst pk) && no_char "." (fst pk) && wf_kind (fst pk) (snd pk)) (s_params ms)
+  && forallb (fun pk => nonempty (fst pk) && negb (String.eqb (fst pk) "_") && no_char "." (fst pk) && wf_kind (fst pk) (snd pk)) (s_params ms)
   && nodup_str (map fst (s_alias ms)) && nodup_str (map snd (s_alias ms))
   && forallb (fun kv => nonempty (snd kv) && no_char "." (fst kv)) (s_alias ms)
   && forallb (fun h => match kind_of_param ms (resolve (s_alias ms) h) with Some (KScalar false) => true | _ => false end)
@@ -290,8 +308,8 @@ Definition wf_mspec (ms : mspec) : bool :=
   && (negb (body_verb (s_verb ms)) || Nat.eqb (count_kind is_struct (s_params ms)) 1)
   && (mem_str (s_verb ms) ["GET"; "POST"; "PUT"; "PATCH"; "DELETE"]).
 
-(* argument values inside the region: they fit the declaration; the text of a path argument carries no brace (open finding
-   K_rest_subst_rescan), a pointer-to-struct argument of a GET/DELETE method is not nil (open
+(* argument values inside the region: they fit the declaration; the text of a path argument is path_text_safe
+   (below), a pointer-to-struct argument of a GET/DELETE method is not nil (open
    finding K_rest_nil_struct_ptr) *)
 Definition field_typed (fs : list (string * fval)) (f : fspec) : bool :=
   match field_get fs (fi_name f), fi_ptr f with
@@ -311,10 +329,18 @@ Definition arg_typed (args : list (string * aval)) (pk : string * pkind) : bool 
 (* every declared parameter has an argument of its kind *)
 Definition args_typed (ms : mspec) (args : list (string * aval)) : bool := forallb (arg_typed args) (s_params ms).
 
+(* the text of a path argument that the generated code carries to the wire unchanged: one non-empty
+   path segment that is not a dot segment and contains no slash, no percent sign and no brace.  Everything
+   else belongs to the open findings K_rest_path_percent (the text is not url.PathEscape'd: url.JoinPath
+   unescapes, cleans or drops it) and K_rest_subst_rescan (a brace may be substituted again) *)
+Definition path_text_safe (s : string) : bool :=
+  nonempty s && no_char "/" s && no_char "%" s && no_char "{" s
+  && negb (String.eqb s ".") && negb (String.eqb s "..").
+
 Definition args_in_guard (fmt_v : sval -> string) (ms : mspec) (args : list (string * aval)) : bool :=
   args_typed ms args &&
   forallb (fun h => match arg_get args (resolve (s_alias ms) h) with
-                    | Some (AScalar v) => no_char "{" (fmt_v v)
+                    | Some (AScalar v) => path_text_safe (fmt_v v)
                     | _ => false
                     end) (holes (s_toks ms))
   && (body_verb (s_verb ms) ||
